@@ -30,11 +30,30 @@ def show(v, depth=0):
         return object.__repr__(v)
 
 
-def concrete_run(c, values, choices, label, verbose=True, native=True):
+def concrete_search(c, values, choices, label, tries=300, seed=0):
+    """Replay the solver's model; if the real code does not fail on it (the
+    model may rely on the abstraction of a callee), search the same path shape
+    (same structural choices) with random small leaf values for an input on
+    which the real code does violate the clause."""
+    import random
+    st, text = concrete_run(c, values, choices, label)
+    if st in ("confirmed", "not-replayable", "error"):
+        return st, text, values
+    rng = random.Random(seed)
+    for k in range(tries):
+        span = (2, 5, 12)[k % 3]
+        ctxv = {}
+        st2, text2 = concrete_run(c, ctxv, choices, label, rng=rng, span=span, record=ctxv)
+        if st2 == "confirmed":
+            return st2, text2 + f"\n(found by concrete search in the refuted path's shape, try {k})", ctxv
+    return st, text, values
+
+
+def concrete_run(c, values, choices, label, verbose=True, native=True, rng=None, span=6, record=None):
     """Returns ('confirmed'|'not-reproduced'|'precondition-false'|'error', text)."""
     ensure_repo_on_path()
     out = []
-    ctx = ConcreteCtx(values=values, choices=choices)
+    ctx = ConcreteCtx(values=values, choices=choices, rng=rng, lo=-span, hi=span)
     old = S.set_ctx(ctx)
     try:
         g = G(ctx)
@@ -42,8 +61,10 @@ def concrete_run(c, values, choices, label, verbose=True, native=True):
         kind, fn, rest = load_target(c, it, repo_root())
         if c.setup:
             c.setup(g)
-        if kind == "nested":
+        if kind == "nested" and getattr(c, "native_entry", None) is None:
             return "not-replayable", "nested target: no native entry point"
+        if kind == "nested":
+            g.ghost["outer"] = Args(**c.outer_inputs(g))
         argd = dict(c.gen(g)) if c.gen else {}
         ghost = argd.pop("__ghost__", {})
         a = Args(**argd)
@@ -58,11 +79,13 @@ def concrete_run(c, values, choices, label, verbose=True, native=True):
             if not p(a):
                 return "precondition-false", "\n".join(out)
         a.exc, a.result = None, None
+        if record is not None:
+            record.update(ctx.leaves)
         try:
-            if c.entry is not None:
-                if getattr(c, "native_entry", None) is None:
-                    return "not-replayable", "custom entry without native_entry"
+            if getattr(c, "native_entry", None) is not None:
                 a.result = c.native_entry(g, fn, a)
+            elif c.entry is not None:
+                return "not-replayable", "custom entry without native_entry"
             else:
                 pos = argd.pop("__args__", None)
                 a.result = fn(*pos, **argd) if pos is not None else fn(**argd)
@@ -101,6 +124,8 @@ def concrete_run(c, values, choices, label, verbose=True, native=True):
     except Exception as e:
         return "error", "\n".join(out) + "\n" + "".join(traceback.format_exception(e))[-2000:]
     finally:
+        if record is not None:
+            record.update(ctx.leaves)
         S.set_ctx(old)
 
 
